@@ -78,9 +78,65 @@ pub fn exercise(s: &str, recs: &[Rec]) -> Result<Vec<(String, bool)>, Failure> {
 #[derive(Serialize, Deserialize, Debug, Clone)]
 pub struct Str(pub String);
 
+/// Differential oracle against the reference parser of the documented grammar.
+pub fn differential(s: &str, recs: &[Rec], outs: &[(String, bool)], obs: &mut Obs) -> CaseResult {
+    use crate::refparse::{self, Parsed};
+    if outs.is_empty() {
+        return Ok(());
+    }
+    match refparse::parse(s) {
+        Parsed::Unsettled(_) => obs.class("grammar-unsettled(no-panic only)"),
+        Parsed::Ok(pat) => {
+            obs.class("well-formed(reference)");
+            let no_thread = count_nodes(&pat, &|n| matches!(n, Node::Fmt { kind: Kind::Thread, .. })) == 0;
+            let has_max_below_min = false;
+            if !has_date(&pat) && no_thread && !has_max_below_min {
+                for (rec, (out, ok)) in recs.iter().zip(outs.iter()) {
+                    let env = Env { thread_name: "main".into(), debug_build: cfg!(debug_assertions), now_secs: 0 };
+                    let want = render(&pat, rec, &env);
+                    ensure!(*ok, "C11:wellformed-encode-error", "pattern {:?} is well-formed by the documented grammar but encode returned an error", s);
+                    ensure!(
+                        *out == want,
+                        if out.contains("{ERROR:") && !want.contains("{ERROR:") { "C11:false-error" } else { "C11:wellformed-output-differs" },
+                        "pattern {:?} is well-formed by the documented grammar: output {:?}, meaning {:?}", s, out, want
+                    );
+                }
+            } else if !refparse::has_subsecond_date(&pat) && !has_date(&pat) {
+                // thread names depend on the caller
+            } else {
+                for (out, ok) in outs {
+                    ensure!(*ok && (!out.contains("{ERROR:") || s.contains("ERROR")), "C11:false-error", "pattern {:?} is well-formed by the documented grammar but the output shows an error: {:?}", s, out);
+                }
+            }
+        }
+        p @ (Parsed::Malformed(..) | Parsed::MalformedNested(..)) => {
+            let (prefix, why, nested) = match p {
+                Parsed::Malformed(a, b) => (a, b, false),
+                Parsed::MalformedNested(a, b) => (a, b, true),
+                _ => unreachable!(),
+            };
+            obs.class(if nested { "malformed-inside-an-argument(reference)" } else { "malformed(reference)" });
+            for (rec, (out, ok)) in recs.iter().zip(outs.iter()) {
+                ensure!(
+                    nested || out.contains("{ERROR:") || !*ok,
+                    "C11:error-not-surfaced",
+                    "pattern {:?} is malformed ({}) but neither an {{ERROR: ...}} marker nor a returned error shows it: output {:?}", s, why, out
+                );
+                if !has_date(&prefix) && count_nodes(&prefix, &|n| matches!(n, Node::Fmt { kind: Kind::Thread, .. })) == 0 {
+                    let env = Env { thread_name: "main".into(), debug_build: cfg!(debug_assertions), now_secs: 0 };
+                    let head = render(&prefix, rec, &env);
+                    ensure!(out.starts_with(&head), "C11:prefix-not-rendered", "pattern {:?} is malformed ({}) after a valid prefix: output {:?} does not start with the prefix's rendering {:?}", s, why, out, head);
+                }
+            }
+        }
+    }
+    Ok(())
+}
+
 pub fn check_str(case: &Str, obs: &mut Obs) -> CaseResult {
     let recs = fixed_recs();
     let outs = exercise(&case.0, &recs)?;
+    differential(&case.0, &recs, &outs, obs)?;
     let has_err = outs.iter().any(|(o, ok)| o.contains("{ERROR:") || !*ok);
     let has_other = outs.iter().any(|(o, _)| {
         let stripped = o.replace("{ERROR:", "");
@@ -222,6 +278,7 @@ pub fn soup_strategy() -> impl Strategy<Value = Soup> {
 
 pub fn check_soup(case: &Soup, obs: &mut Obs) -> CaseResult {
     let outs = exercise(&case.s, std::slice::from_ref(&case.rec))?;
+    differential(&case.s, std::slice::from_ref(&case.rec), &outs, obs)?;
     let has_err = outs.iter().any(|(o, ok)| o.contains("{ERROR:") || !*ok);
     let has_other = outs.iter().any(|(o, _)| !o.replace("{ERROR:", "").is_empty());
     let big = case.s.split(|c: char| !c.is_ascii_digit()).any(|d| d.len() >= 10);
